@@ -21,6 +21,7 @@ type Options struct {
 	MaxViolations  int      `json:"max_violations"`
 	NoIfConv       bool     `json:"no_ifconv"`
 	ModeB          bool     `json:"mode_b"`
+	FixedHdr       bool     `json:"fixed_hdr"`
 	PoolStale      int      `json:"pool_stale"`
 	MonitorPool    bool     `json:"monitor_pool"`
 	MonitorGlobals bool     `json:"monitor_globals"`
